@@ -41,7 +41,7 @@ func main() {
 	rep.Bounds["shapes"] = "full: m1{host=a: sum,min,max,last,first; host=b: sum,last} m2{host=b: sum,max}; one-sum: m1{host=a: sum}; values integers 1..9"
 	if part == "conc" {
 		rep.Rule = "stress, NOT exhaustive over schedules: every F step writes one batch into each of N source families (hours) of one day, the following ForceRollup starts N rollup goroutines that merge into the same 5m and 1h target families concurrently (this is what the kv job scheduler does for a source store); the same histories are repeated for several rounds on fresh engines; the sequential oracle is evaluated after every step; a Go runtime 'fatal error: concurrent map ...' of a lindb goroutine is reported by the driver as a process-crash violation. non-trivial = a rollup step with >=2 source families holding unrolled files"
-		rep.Bounds["families"] = "rounds (6 quick / 40 thorough) x N in {24, 8, 2} x histories {Fr, FrFr, FFr} at day 2019-04-15, pattern edges, one sum series"
+		rep.Bounds["families"] = "rounds (40 quick / 200 thorough) x N in {24, 8, 2} x histories {Fr, FrFr, FFr} at day 2019-04-15, pattern edges, one sum series"
 	} else if part == "crash" {
 		rep.Rule = "every history runs on a fresh real engine directory with the oracle after every step; during every rollup step the directory tree is captured after every kv seam call and after every rollup job commit; every distinct image (states) is recovered by a fresh engine, rolled up again and compared with the model (transitions). distinct = distinct history; non-trivial = at least one recovered image had live target reference marks AND live source rollup marks (the kill hit between the two commits)"
 		rep.Bounds["families"] = "all sequences over {F,r} of length <=4 (quick) / <=5 (thorough) with >=1 effective rollup x 2 (3) positions whose neighbour family lies in another source store (one active rollup goroutine at a time) x shapes; during every r step the directory tree is captured after every kv seam call (mkDir, encodeToml, listDir, remove, removeDir) and after every rollup job's commit in a target family; every distinct image is recovered by a fresh engine + rollup again"
